@@ -2,7 +2,7 @@
 From Coq Require Import List String NArith Bool.
 From FB Require Import Lib.Bytes Lib.Layout Gen.RustABI Spec.KernelABI Model.Server Model.ServerCmp
   Spec.Requests Spec.Replies Spec.Init Model.InitToggles
-  Proofs.ServerInit Proofs.ServerInitNeg Proofs.InitToggles.
+  Proofs.ServerInit Proofs.ServerInitNeg Proofs.ServerInitMsg Proofs.InitToggles.
 Import ListNotations.
 Local Open Scope N_scope.
 
@@ -108,6 +108,18 @@ Theorem C12_version_stored : forall cfg h r fr d m,
   exists want body c, fr = FInit want /\ d = ([c], ReplyOk body) /\ c_method c = "init"%string /\
                       Nat.leb 16 (List.length r) = true /\ u32 0 r = 7 /\ m = u32 4 r.
 Proof. exact init_version_stored. Qed.
+
+(* all of the above at once, on the whole message (header + body) the model sends: it satisfies the
+   specification predicate [init_reply_ok] of Spec/Init.v, the predicate the check evaluates on real replies *)
+Theorem C12_model_reply_meets_spec : forall cfg u minor ra flags f2 want,
+  u < 2 ^ 64 ->
+  init_fits 7 minor ra flags f2 = true ->
+  known_has_marker (cfg_fsopt_mask cfg) = true ->
+  let q := init_qu u 7 minor ra flags f2 in
+  let offered := N.land (client_capable q) (cfg_fsopt_mask cfg) in
+  let body := init_reply_body minor ra (init_enabled offered want) in
+  init_reply_ok q (cfg_fsopt_mask cfg) (FInit want) (MAX_BUFFER_SIZE + BUFFER_HEADER_SIZE) (ok_message u body) = true.
+Proof. exact init_message_ok. Qed.
 
 (* ================================================================== Vfs / passthrough / overlay switches *)
 
@@ -276,6 +288,7 @@ Print Assumptions C12_max_write_fails_for_64k_pages.
 Print Assumptions C12_major_mismatch.
 Print Assumptions C12_version_only_reply.
 Print Assumptions C12_version_stored.
+Print Assumptions C12_model_reply_meets_spec.
 Print Assumptions C12_flag_constants.
 Print Assumptions C12_vfs_no_open_negotiated.
 Print Assumptions C12_vfs_no_opendir_negotiated.
